@@ -607,7 +607,7 @@ def main(tier):
     # ---------------- model + proved checker (Coq) ------------------------------------
     coq_bad = None
     lattice_agree = 0
-    needed = ("Gen/CloneConst", "Clone/GroupSpec.v", "Clone/GroupCommon.v", "Clone/GroupConnected.v", "Clone/GroupComplete.v",
+    needed = ("Gen/GroupConst", "Clone/GroupSpec.v", "Clone/GroupCommon.v", "Clone/GroupConnected.v", "Clone/GroupComplete.v",
               "Clone/GroupKCore.v", "Clone/GroupStar.v", "Clone/GroupLattice.v", "Clone/GroupRun.v")
     model_files_ok = not any(any(n in f for n in needed) for f in getattr(ck, "failed_files", []))
     if model_files_ok and any(g is not None for g in impl_groups):
